@@ -508,7 +508,7 @@ fn verif_c04_mac_faults() {
     // (field, count, active): 1, 2 and 3 batches incl. a short last batch
     let mut configs: Vec<(&'static str, usize, u32)> = vec![
         ("Fp32BitPrime", 2, 2), ("Fp32BitPrime", 7, 4), ("Fp25519", 3, 2), ("Fp25519", 9, 4), ("Fp31", 5, 2), ("PRF", 6, 4),
-        ("Fp32BitPrime", 12, 4), ("Fp25519", 5, 2), ("Fp31", 9, 4), ("PRF", 9, 2),
+        ("Fp32BitPrime", 12, 4), ("Fp25519", 5, 2), ("Fp31", 9, 4), ("PRF", 9, 2), ("PRF", 4, 4),
     ];
     if env.thorough {
         configs.extend([("Fp32BitPrime", 33, 16), ("Fp25519", 16, 16), ("Fp31", 20, 16), ("PRF", 17, 16), ("Fp32BitPrime", 3, 2), ("Fp25519", 12, 4)]);
@@ -575,6 +575,32 @@ fn verif_c04_mac_faults() {
                 rec.eval();
                 rec.seen("step_families_faulted", format!("{field}:{fam}"));
                 let corrupt = *src as usize;
+                // validate before reveal (single-batch PRF runs): an honest helper whose MAC check failed must not have
+                // sent anything on the gates that open g^r and z
+                if is_prf && count <= active as usize {
+                    if let Paused::Done((res, _)) = &out {
+                        for h in (0..3).filter(|h| *h != corrupt) {
+                            let Ok(Err(e)) = &res[h] else { continue };
+                            if !(e.contains("MaliciousSecurityCheckFailed") || e.contains("ParallelDZKPValidationFailed")) {
+                                continue;
+                            }
+                            let opened: Vec<String> = st2.chunks.iter()
+                                .filter(|c| c.key.src as usize == h)
+                                .map(|c| c.key.gate.clone())
+                                .filter(|g| !g.contains("/validate/") && (g.ends_with("/revealz") || g.ends_with("/reveal_r")))
+                                .collect();
+                            if opened.is_empty() {
+                                rec.count("validation_failed_nothing_opened");
+                            } else {
+                                rec.violation(
+                                    "an honest helper whose MAC validation failed had already sent its shares of the values to be opened",
+                                    json!({"kind": "opened_before_validated", "step_family": fam}),
+                                    json!({"case": idx, "mac_case": format!("{case:?}"), "fault": fault.to_json(), "helper": h, "chunks_sent_on_opening_gates": opened.len(), "gates": opened.iter().take(4).collect::<Vec<_>>()}),
+                                );
+                            }
+                        }
+                    }
+                }
                 let honest_all_ok = match &out {
                     Paused::Quiescent => false,
                     Paused::Done((res, _)) => (0..3).filter(|h| *h != corrupt).all(|h| matches!(res[h], Ok(Ok(_)))),
